@@ -1767,6 +1767,7 @@ func main() {
 			m, dir = scriptedBlocks(g, o, dir)
 			total += m
 		}
+		probePlaceholders(o, dir)
 		if hungHistories < 3 {
 			var m int
 			m, dir = scriptedProgs(o, dir, func(tag string) *hist { return &hist{g: g, o: o, seedTag: tag, noTxn: true} })
